@@ -1524,7 +1524,7 @@ def code_to_spec(ctx, items, name, per_world, nmax=3):
                     'interrupted_after_events': meta[-1][1], 'events': [{k: v for k, v in e.items()} for e in traces[-1][:4]]})
 
 
-def random_items(ctx, n, max_nodes):
+def random_items(ctx, n, max_nodes, max_events):
     items = []
     idx = 0
     tries = 0
@@ -1539,7 +1539,8 @@ def random_items(ctx, n, max_nodes):
         if bw is None:
             continue
         w, rk = bw
-        if len(json.dumps(w)) > 400000:
+        # long walks make TLC's trace validation slow (the handed list is part of every state)
+        if rk.bound > 3 * max_events + 100 or len(json.dumps(w)) > 150000:
             continue
         items.append(Item(wd, w, rk))
     return items
@@ -1576,7 +1577,7 @@ def run(ctx):
     spec_to_code(ctx, items, thorough)
     # (T) lattice worlds and random real grids
     code_to_spec(ctx, items, 'lattice', 4 if thorough else 2)
-    ritems = random_items(ctx, 300 if thorough else 40, 2500 if thorough else 1200)
+    ritems = random_items(ctx, 300 if thorough else 40, 1500 if thorough else 600, 2500 if thorough else 1000)
     code_to_spec(ctx, ritems, 'random', 4 if thorough else 2)
 
     ctx.assumptions += [
